@@ -44,10 +44,10 @@ def classes(tier):
                 out.append((p, op, n, b2))
     # longest-processing-time-first: the counted / multi-structure classes dominate the wall time
     out.sort(key=lambda c: (0 if c[1] in HEAVY else 1))
-    if tier == "quick":
-        # prefixed runs only where a prefix can matter (an internal-memory operand exists)
-        im = imem_opcodes()
-        out = [c for c in out if c[0] is None or c[1] in im]
+    # prefixed runs only where a prefix can matter (an internal-memory operand exists); thorough was sized by wall time
+    # (all 15 PRE bytes and I <= 3, named-register operands only without a prefix: about half an hour on 16 cores)
+    im = imem_opcodes()
+    out = [c for c in out if c[0] is None or c[1] in im]
     return out
 
 
@@ -75,7 +75,7 @@ def run_class(item):
         "discharged": 0, "vacuous": 0, "cex": [], "sigs": {}, "solver_time": 0.0, "samples": [], "unknown": 0,
     }
     try:
-        paths, stats = X.run_paths(prefix, opcode, n, b2_set=b2, N=N, max_paths=8000, named_limit=0 if tier == "quick" else 1,
+        paths, stats = X.run_paths(prefix, opcode, n, b2_set=b2, N=N, max_paths=8000, named_limit=0 if (tier == "quick" or prefix is not None) else 1,
                                    deadline_s=120 if tier == "quick" else 900)
     except X.core.PathLimit as e:
         res["inconclusive"].append(f"path limit: {e}")
